@@ -192,3 +192,45 @@ def gradient_scatter(prog, cname, mname, out_name="grad"):
     if seen != {"cov", "mean"}:
         why.append(f"slices written: {sorted(seen)}")
     return ci, fn, why
+
+
+def routing_obligations(prog, cname, rule, rel):
+    """Every evaluation of the kernel / mean builders inside the class gets ITS part of the hyper-parameter vector: the argument is
+    `<vector>[self.cov_slice]` (resp. mean_slice) of the method's own vector argument, or the stored self.cov_hyperpars /
+    self.mean_hyperpars - which set_hyperparameters must itself cut with those slices.  A hand-written slice (`theta[1:]`) is
+    right only for one particular mean / kernel pairing."""
+    from ..term import Resolver
+    from ..model import qual
+    from .common import struct_ob
+    out = []
+    ci = prog.cls(cname)
+    for mname, fn in ci.methods.items():
+        if not fn.args.args:
+            continue
+        rz = Resolver(fn, prog, ci.module, ci)
+        params = [a.arg for a in fn.args.args[1:]]
+        why = []
+        n_calls = 0
+        for call, st in rz.calls(lambda f: f in ("self.cov.build_covariance", "self.cov.covariance_and_gradients",
+                                                 "self.mean.build_mean", "self.mean.mean_and_gradients")):
+            if not call.args:
+                continue
+            n_calls += 1
+            which = "cov" if ".cov." in U(call.func) else "mean"
+            t = U(rz.term(call.args[0], st))
+            good = {f"self.{which}_hyperpars"} | {f"{p_}[self.{which}_slice]" for p_ in params} | {f"self.hyperpars[self.{which}_slice]"}
+            if t not in good:
+                why.append(f"line {call.lineno}: `{U(call)[:80]}` is given `{t[:60]}`, not the {which} part of the hyper-parameter vector "
+                           f"(`<theta>[self.{which}_slice]`)")
+        # the stored parts are cut with the stored slices
+        for st in ast.walk(fn):
+            if isinstance(st, ast.Assign) and len(st.targets) == 1 and U(st.targets[0]) in ("self.cov_hyperpars", "self.mean_hyperpars"):
+                n_calls += 1
+                which = "cov" if "cov" in U(st.targets[0]) else "mean"
+                t = U(rz.term(st.value, st))
+                good = {f"self.hyperpars[self.{which}_slice]"} | {f"{p_}[self.{which}_slice]" for p_ in params}
+                if t not in good:
+                    why.append(f"line {st.lineno}: `{U(st)[:80]}` does not cut the stored vector with self.{which}_slice")
+        if n_calls:
+            out.append(struct_ob(rule, qual(ci, fn), not why, "; ".join(why[:2]), rel, fn.lineno, slots={"sites": n_calls}, tier="F"))
+    return out
